@@ -323,8 +323,15 @@ class MessagePackRpc(MessagePackDocument):
             ctx.in_error = Fault(**ctx.in_error)
 
         elif body_class:
-            ctx.in_object = self._doc_to_object(ctx,
-                                    body_class, ctx.in_body_doc, self.validator)
+            doc = ctx.in_body_doc
+            if doc is None and message is self.REQUEST:
+                # null parameters are no parameters: the function is called
+                # with a null for every argument (or the validator complains
+                # about the mandatory ones).
+                doc = []
+
+            ctx.in_object = self._doc_to_object(ctx, body_class, doc,
+                                                                 self.validator)
 
         else:
             ctx.in_object = []
